@@ -178,6 +178,12 @@ func (d *Decoder) ReadList(flag int32) (interface{}, error) {
 		return nil, nil
 	case refTag(tag):
 		return d.readRef(tag)
+	case tag == _objectDefTag:
+		// value ::= class-def value : a class definition may precede the list
+		if err := d.readAndAddClassDef(); err != nil {
+			return nil, err
+		}
+		return d.ReadList(_tagRead)
 	case typedListTag(tag):
 		return d.readTypedList(tag)
 	case untypedListTag(tag):
